@@ -2,6 +2,7 @@
 
 A spec is a nested tuple  (name, kind, payload, children)  where children are specs:
   kind 'leaf'   : returns payload
+  kind 'cfail'  : returns cfail_leaf(<context k>, payload): raises ValueError('strict<payload>') iff k == 1
   kind 'ctx'    : returns ["ctx", payload, <context variable k of the job, or "none">]
   kind 'raise'  : raises ValueError(payload)
   kind 'list'   : returns [child calls...] (a nested list of lazy calls)
@@ -25,12 +26,22 @@ def recover(error):
 
 
 @task(version="1")
+def cfail_leaf(k, payload):
+    if k == 1:
+        raise ValueError(f"strict{payload}")
+    return ["ok", payload, k]
+
+
+@task(version="1")
 def node(spec):
     name, kind, payload, children = spec[:4]
     if kind == "leaf":
         return payload
     if kind == "raise":
         raise ValueError(payload)
+    if kind == "cfail":
+        # fails iff context variable "k" is 1 in this job's context (the failure happens in a child call)
+        return cfail_leaf(get_context("k", "none"), payload)
     if kind == "ctx":
         # the value of context variable "k" in this job's context (final value depends on the context)
         return ["ctx", payload, get_context("k", "none")]
